@@ -23,6 +23,19 @@ MutantsOf(i) ==
 BoundaryDeltas == {0, 10, 20, 100}
 BoundaryOf(i) == UNION {Boundary(Desc[i].type, Desc[i].enc, d) : d \in BoundaryDeltas}
 
+\* wrapping histories as the node's factories produce them (interceptors container factory: wrap(shared, 10); full-sync
+\* factory later: wrap(shared', MaxUint32)), the reverse order, and two independent wrappers of one base; `use` = the handle
+\* given to the interceptor constructor AFTER all operations of the history were executed
+W(on, d) == [on |-> on, d |-> d]
+Histories ==
+    {[name |-> "wrap10", ops |-> <<W(0, 10)>>, use |-> 1],
+     [name |-> "wrap10-then-outerMax.inner", ops |-> <<W(0, 10), W(1, Lenient)>>, use |-> 1],
+     [name |-> "wrap10-then-outerMax.outer", ops |-> <<W(0, 10), W(1, Lenient)>>, use |-> 2],
+     [name |-> "wrapMax-then-outer10.inner", ops |-> <<W(0, Lenient), W(1, 10)>>, use |-> 1],
+     [name |-> "wrapMax-then-outer10.outer", ops |-> <<W(0, Lenient), W(1, 10)>>, use |-> 2],
+     [name |-> "wrap10-and-wrapMax-of-same-base.first", ops |-> <<W(0, 10), W(0, Lenient)>>, use |-> 1],
+     [name |-> "wrap10-and-wrapMax-of-same-base.second", ops |-> <<W(0, 10), W(0, Lenient)>>, use |-> 2]}
+
 Out(i, x, ds) ==
     LET T  == Desc[i].type
         d0 == Decode(T, Desc[i].enc)
@@ -33,6 +46,10 @@ Out(i, x, ds) ==
          classes |-> Classes(T, x), ok |-> dm.ok, deceq |-> (dm.ok /\ dm.val = d0.val),
          len |-> ln, objsize |-> cs,
          acc |-> [d \in ds |-> dm.ok /\ SizeOK(ln, cs, d)],
+         \* per-handle rule (only exported for the boundary mutants)
+         hs |-> IF ds = BoundaryDeltas
+                THEN {[name |-> h.name, ops |-> h.ops, use |-> h.use, acc |-> dm.ok /\ HandleSizeOK(h.ops, h.use, ln, cs)] : h \in Histories}
+                ELSE {},
          \* the intended design: with the hash of the canonical content C18 holds for the pair (x, canonical)
          c18 |-> \A d \in Deltas : C18(T, x, Desc[i].enc, d)]
 
